@@ -134,6 +134,23 @@ Theorem C18_outer_spaces_same_tree_with_filters : forall cfg parse_float regex_o
   parse_with cfg parse_float regex_ok jsonpath_grammar (fchain_path (s :: r)).
 Proof. exact fpadded_same_parse. Qed.
 Print Assumptions C18_outer_spaces_same_tree_with_filters.
+(* the same when function calls follow — filter functions and aggregates, in any order (PadFun.v): ` $.a[?(@.b)].f().g() ` *)
+From JP Require Import FunParse PadFun.
+Theorem C18_outer_spaces_same_tree_with_functions : forall cfg parse_float regex_ok n1 n2 l fs,
+  forallb fstep_ok l = true -> forallb (fstep_okp parse_float regex_ok) l = true ->
+  forallb fname_ok fs = true -> forallb (call_ok cfg) fs = true ->
+  parse_with cfg parse_float regex_ok jsonpath_grammar (fpadded_fun_path n1 n2 l fs) =
+  parse_with cfg parse_float regex_ok jsonpath_grammar (fchain_fun_path l fs).
+Proof. exact fpadded_fun_same_parse. Qed.
+Print Assumptions C18_outer_spaces_same_tree_with_functions.
+(* ` $.a[?(@.b)].f().g()  ` with f a filter function and g an aggregate: the text, and the premises hold *)
+Example C18_outer_spaces_functions_example :
+  let cfg := {| cfg_filters := ["f"%string]; cfg_aggs := ["g"%string]; cfg_accessor := false |} in
+  let l := [FS (RPlain (SDot [97])); FE [RPlain (SDot [98])]] in
+  fpadded_fun_path 1 2 l [[102]; [103]] = [32; 36; 46; 97; 91; 63; 40; 64; 46; 98; 41; 93; 46; 102; 40; 41; 46; 103; 40; 41; 32; 32] /\
+  forallb fstep_ok l = true /\ forallb (fstep_okp (fun _ => None) (fun _ => true)) l = true /\
+  forallb fname_ok [[102]; [103]] = true /\ forallb (call_ok cfg) [[102]; [103]] = true.
+Proof. repeat split; vm_compute; reflexivity. Qed.
 
 
 (* Equivalent spellings in general, from the path text (SpellText.v): two paths of steps and filters (KeyDefs.fchain_path)
